@@ -100,11 +100,21 @@ def scenario(sseed, kind, res, lines, expect, soft=None):
         lines.append(dict(suite="programs", op="decode", order=[[names[e.name], [names[c.parent.name] for c in e.conditions]] for e in grouped]))
         expect.append(",".join(str(names[p.name]) for p in sp.space))
         tun = [f"w{i}" for i in range(R.randint(1, 3))]
+        # every worker is a process of its own with its own OracleClient on the same chief; each reads the space once at start
+        from keras_tuner.distribute import oracle_client
+        clients = {}
+        for w in tun:
+            c = oracle_client.OracleClient(chief)
+            c.stub = client.stub
+            c.get_space()
+            clients[w] = c
+        clients[tun[0]] = client
         hold_d, hold_r = {}, {}
         stopped = set()
         disc = [0]
         for step in range(R.randint(5, 40)):
             w = R.choice(tun)
+            client = clients[w]
             if w in hold_d and R.random() < 0.7:
                 td, tr = hold_d.pop(w), hold_r.pop(w)
                 oc = R.choice(["C", "C", "C", "NAN", "INV", "FAIL"])
@@ -157,8 +167,11 @@ def scenario(sseed, kind, res, lines, expect, soft=None):
                     raise Violation("C16", f"get_trial({tr.trial_id}) through RPC: score {back.score!r}, the chief holds {b.score!r}", {"tag": "score-codec"})
                 if b.score is not None and b.score == b.score and back.best_step != b.best_step:     # a NaN score has no best step (None travels as 0)
                     raise Violation("C16", f"get_trial({tr.trial_id}) through RPC: best_step {back.best_step!r}, the chief holds {b.best_step!r}", {"tag": "score-codec"})
-                if sorted(space_sig(client.get_space())) != sorted(space_sig(chief.get_space())):
-                    raise Violation("C16", "get_space() through RPC differs from the chief's search space (entries reported by a worker are missing)", {"tag": "space-stale"})
+                want_space = sorted(space_sig(direct.get_space()))
+                for w2 in tun:
+                    if sorted(space_sig(clients[w2].get_space())) != want_space:
+                        raise Violation("C16", f"after {w} ended trial {tr.trial_id}, get_space() of worker {w2}'s client differs from the search space of the oracle driven "
+                                               "directly (entries reported by a worker are missing)", {"tag": "space-stale"})
                 tags["end-" + oc] += 1
             elif w not in hold_d and w not in stopped:
                 td = quiet(direct.create_trial, w)
